@@ -57,6 +57,24 @@ LOOP = '''            for i, charge_value in enumerate(charge_per_pixel):
                 array[pixel_index_ver[i], pixel_index_hor[i]] += charge_value
 '''
 HELP = "from pyxel.util import convert_unit\n"
+# --- text blocks of convert_array_to_df / create_charges, cut from the CURRENT source
+_c = src[CH]
+VCALL = _c[_c.index("        vertical_pixel_center_pos_1d = get_vertical_pixel_center_pos("):_c.index("        horizontal_pixel_center_pos_1d = get_horizontal_pixel_center_pos(")].rstrip("\n") + "\n"
+HCALL = _c[_c.index("        horizontal_pixel_center_pos_1d = get_horizontal_pixel_center_pos("):_c.index("        init_ver_pix_position_1d = ")].rstrip("\n") + "\n"
+VKW = "            num_rows=num_rows,\n            num_cols=num_cols,\n"
+_a = _c.index("        new_charges: Mapping[str, Sequence | np.ndarray] = {")
+COLDICT = _c[_a:_c.index("        }\n", _a) + len("        }\n")]
+COLPAIRS = [(k.value, ast.unparse(v)) for k, v in zip(ast.parse(COLDICT.strip().split("=", 1)[1].strip()).body[0].value.keys,
+                                                      ast.parse(COLDICT.strip().split("=", 1)[1].strip()).body[0].value.values)]
+COLKEYS = "(" + ", ".join(repr(k) for k, _ in COLPAIRS) + ",)"
+COLVALS = "(" + ", ".join(v for _, v in COLPAIRS) + ",)"
+_x = dict(COLPAIRS); _x["number"], _x["energy"] = _x["energy"], _x["number"]
+COLVALS_X = "(" + ", ".join(_x[k] for k, _ in COLPAIRS) + ",)"
+_kx = [k for k, _ in COLPAIRS]; _i1, _i2 = _kx.index("position_ver"), _kx.index("position_hor"); _kx[_i1], _kx[_i2] = _kx[_i2], _kx[_i1]
+COLKEYS_X = "(" + ", ".join(repr(k) for k in _kx) + ",)"
+COLVALS_SHORT = "(" + ", ".join(v for _, v in COLPAIRS[:1]) + ",)"
+_a = _c.index('        if particle_type == "e":')
+SIGN = _c[_a:_c.index('raise ValueError("Given charged particle type can not be simulated")\n', _a) + len('raise ValueError("Given charged particle type can not be simulated")\n')]
 CASES = [
  ("tuple-unpack rows/cols", "same|differs-ok", [ed(CH, "        array = np.zeros((self._geo.row, self._geo.col))", "        rows, cols = self._geo.row, self._geo.col\n        array = np.zeros((rows, cols))"),
      ed(CH, MASK, MASK.replace("self._geo.row", "rows").replace("self._geo.col", "cols"))]),
@@ -112,6 +130,32 @@ EXTRA2 = [
  ("empty(): helper method resets the array", "same", [ed(CH, "        self._array = np.zeros_like(self._array)\n\n    def frame_empty", "        self._clear_array()\n\n    def _clear_array(self) -> None:\n        self._array = np.zeros_like(self._array)\n\n    def frame_empty")]),
  ("to_xarray: copy taken first", "same", [ed(CH, "        data_2d: np.ndarray = self.array\n", "        data_2d: np.ndarray = self.array\n        snapshot = data_2d.copy()\n"), ed(CH, "            data_2d.copy(),\n", "            snapshot,\n")]),
  ("BREAK to_xarray: alias instead of copy", "differs-bad", [ed(CH, "        data_2d: np.ndarray = self.array\n", "        data_2d: np.ndarray = self.array\n        snapshot = data_2d\n"), ed(CH, "            data_2d.copy(),\n", "            snapshot,\n")]),
+ # ---- round 2d: call shapes (**display, functools.partial) and column mappings of create_charges
+ ("centres called with **dict of the shared keywords", "same", [ed(CH, VCALL, "        grid = {\"num_rows\": num_rows, \"num_cols\": num_cols}\n" + VCALL.replace(VKW, "            **grid,\n")),
+     ed(CH, HCALL, HCALL.replace(VKW, "            **grid,\n"))]),
+ ("centres called with **dict(k=v)", "same", [ed(CH, VCALL, VCALL.replace(VKW, "            **dict(num_cols=num_cols, num_rows=num_rows),\n"))]),
+ ("BREAK **dict with rows / cols crossed", "failclosed|differs-bad", [ed(CH, VCALL, "        grid = {\"num_rows\": num_cols, \"num_cols\": num_rows}\n" + VCALL.replace(VKW, "            **grid,\n"))]),
+ ("BREAK **dict updated in place before use", "failclosed", [ed(CH, VCALL, "        grid = {\"num_rows\": num_rows, \"num_cols\": num_cols}\n        junk = grid.update(num_rows=num_cols)\n" + VCALL.replace(VKW, "            **grid,\n"))]),
+ ("BREAK **dict rebound by |=", "failclosed", [ed(CH, VCALL, "        grid = {\"num_rows\": num_rows, \"num_cols\": num_cols}\n        grid |= {\"num_rows\": num_cols}\n" + VCALL.replace(VKW, "            **grid,\n"))]),
+ ("centres through functools.partial", "same", [ed(CH, HELP, "from functools import partial\n" + HELP),
+     ed(CH, VCALL, "        on_grid = partial(get_vertical_pixel_center_pos, num_rows=num_rows, num_cols=num_cols)\n        vertical_pixel_center_pos_1d = on_grid(pixel_vertical_size=pixel_vertical_size)\n")]),
+ ("zeros through functools.partial", "same", [ed(CH, HELP, "import functools\n" + HELP),
+     ed(CH, "        size: int = charge_number.size\n", "        size: int = charge_number.size\n        zeros = functools.partial(np.zeros, size)\n"), ed(CH, "init_energy=np.zeros(size)", "init_energy=zeros()")]),
+ ("BREAK partial binds the other pixel size", "failclosed|differs-bad", [ed(CH, HELP, "from functools import partial\n" + HELP),
+     ed(CH, VCALL, "        on_grid = partial(get_vertical_pixel_center_pos, num_rows=num_rows, pixel_vertical_size=pixel_horizontal_size)\n        vertical_pixel_center_pos_1d = on_grid(num_cols=num_cols)\n")]),
+ ("BREAK partial keyword overridden by the call", "failclosed|differs-bad", [ed(CH, HELP, "from functools import partial\n" + HELP),
+     ed(CH, VCALL, "        on_grid = partial(get_vertical_pixel_center_pos, num_rows=num_rows, num_cols=num_cols, pixel_vertical_size=pixel_vertical_size)\n        vertical_pixel_center_pos_1d = on_grid(num_rows=num_cols)\n")]),
+ ("BREAK a local function named partial", "failclosed", [ed(CH, HELP, "from functools import partial\n" + HELP + "\n\ndef partial(f, **kw):\n    return lambda **k: f(**k)\n"),
+     ed(CH, VCALL, "        on_grid = partial(get_vertical_pixel_center_pos, num_rows=num_rows, num_cols=num_cols)\n        vertical_pixel_center_pos_1d = on_grid(pixel_vertical_size=pixel_vertical_size)\n")]),
+ ("columns: dict(zip(module tuple, local tuple, strict=True))", "same", [ed(CH, HELP, HELP + "\n_COLS = " + COLKEYS + "\n"), ed(CH, COLDICT, "        values = " + COLVALS + "\n        new_charges = dict(zip(_COLS, values, strict=True))\n")]),
+ ("columns: dict(k=v)", "same", [ed(CH, COLDICT, "        new_charges = dict(" + ", ".join(f"{k}={v}" for k, v in COLPAIRS) + ")\n")]),
+ ("columns: particle sign by match, list built after", "same", [ed(CH, SIGN, "        match particle_type:\n            case \"e\":\n                sign = -1\n            case \"h\":\n                sign = +1\n            case _:\n                raise ValueError(\"Given charged particle type can not be simulated\")\n        charge = [sign] * elements\n")]),
+ ("BREAK columns: zip with number / energy values crossed", "failclosed", [ed(CH, HELP, HELP + "\n_COLS = " + COLKEYS + "\n"), ed(CH, COLDICT, "        values = " + COLVALS_X + "\n        new_charges = dict(zip(_COLS, values, strict=True))\n")]),
+ ("BREAK columns: module key tuple with two names crossed", "failclosed", [ed(CH, HELP, HELP + "\n_COLS = " + COLKEYS_X + "\n"), ed(CH, COLDICT, "        values = " + COLVALS + "\n        new_charges = dict(zip(_COLS, values, strict=True))\n")]),
+ ("BREAK columns: zip of displays of different lengths", "failclosed", [ed(CH, HELP, HELP + "\n_COLS = " + COLKEYS + "\n"), ed(CH, COLDICT, "        values = " + COLVALS_SHORT + "\n        new_charges = dict(zip(_COLS, values))\n")]),
+ ("BREAK columns: key tuple assigned twice at module level", "failclosed", [ed(CH, HELP, HELP + "\n_COLS = " + COLKEYS + "\n_COLS = _COLS[::-1]\n"), ed(CH, COLDICT, "        values = " + COLVALS + "\n        new_charges = dict(zip(_COLS, values, strict=True))\n")]),
+ ("BREAK columns: match capture rebinds a parameter", "failclosed", [ed(CH, SIGN, "        match particle_type:\n            case \"e\":\n                sign = -1\n            case \"h\":\n                sign = +1\n            case particles_per_cluster:\n                raise ValueError(\"Given charged particle type can not be simulated\")\n        charge = [sign] * elements\n")]),
+ ("BREAK columns: a local function named dict", "failclosed", [ed(CH, HELP, HELP + "\n\ndef dict(**kw):\n    return {}\n"), ed(CH, COLDICT, "        new_charges = dict(" + ", ".join(f"{k}={v}" for k, v in COLPAIRS) + ")\n")]),
 ]
 
 
